@@ -438,6 +438,9 @@ class MockIncludeDirective:
             file_lines.pop()
         file_content = "\n".join(file_lines[startline:endline])
         startline = startline or 0
+        if startline < 0:
+            # a negative index counts from the end of the file
+            startline = max(0, len(file_lines) + startline)
         for split_on_type in ["start-after", "end-before"]:
             split_on = self.options.get(split_on_type, None)
             if not split_on:
@@ -449,7 +452,8 @@ class MockIncludeDirective:
                     f'Directive "{self.name}"; option "{split_on_type}": text not found "{split_on}".',
                 )
             if split_on_type == "start-after":
-                startline += split_index + len(split_on)
+                # count the lines (not the characters) that are skipped
+                startline += file_content[: split_index + len(split_on)].count("\n")
                 file_content = file_content[split_index + len(split_on) :]
             else:
                 file_content = file_content[:split_index]
